@@ -40,6 +40,17 @@ def work(args):
         out["crash"] = getattr(K, "crash", None)
         return out
     oracle = ep.ORACLES.get(pid)
+    if pid == "C01":
+        for g in ch:
+            if g.surface is not None:
+                t = K.tie.get(g.gid)
+                out["extra"]["classical_grammars"] += 1
+                if t == "1":
+                    out["extra"]["structure_tie_ok"] += 1
+                elif t == "0":
+                    out["ndiff"] += 1
+                    out["diffs"].append(("structure tie failed: the table dumped by the compiler does not denote the surface grammar (Denote.structure_tie)",
+                                         {"gid": g.gid, "root": g.root, "rules": g.rules, "surface": g.surface}, None, None))
     for ri, rm in zip(K.impl, K.model):
         out["n"] += 1
         out["dist"][len(ri["input"]) // 2 if ri["input"] != "-" else 0] += 1
@@ -63,9 +74,11 @@ def work(args):
             msgs = oracle(K, ri, out["extra"])
             for msg in msgs[:3]:
                 if len(out["violations"]) < 40:
+                    g = K.grams[ri["gid"]]
                     out["violations"].append((signature(K, ri, msg), msg,
-                                              {"grammar_cpp": K.grams[ri["gid"]].cpp(), "cfg": ri["cfg"], "input_hex": ri["input"], "impl_trace": ri["events"][:4000],
-                                               "impl_result": ri["res"], "impl_cursor": ri["cur"]}))
+                                              {"grammar_cpp": g.cpp(), "cfg": ri["cfg"], "input_hex": ri["input"], "impl_trace": ri["events"][:4000],
+                                               "impl_result": ri["res"], "impl_cursor": ri["cur"],
+                                               "gram": {"gid": g.gid, "rules": g.rules, "root": g.root, "surface": g.surface, "tags": sorted(g.tags), "pre": g.pre}}))
         if len(out["samples"]) < 2 and ri["events"].count(";") > 8 and (ri["gid"] * 7 + len(ri["input"])) % 97 == 0:
             out["samples"].append({"grammar": K.grams[ri["gid"]].root, "cfg": ri["cfg"], "input_hex": ri["input"], "result": ri["res"], "cursor": ri["cur"],
                                    "events": ri["events"][:300]})
@@ -117,3 +130,47 @@ def run(ctx, pid, want_tags=None, sanitize_thorough=False):
               grammars=len(grams), outcome_cells=dict(cells), input_length_histogram={str(k): v for k, v in sorted(dist.items())},
               oracle_counters=dict(extra),
               templates=len({t for g in grams for t in g.tags if not t.startswith(("ctx:", "basis:"))}))
+
+
+def replay(j):
+    """bin/check --replay <file>: rebuild the stored grammar against the current tree, run the stored
+    configuration and input through implementation and model, re-evaluate the property's oracle."""
+    import corpus
+    pid = j["property"]
+    rp = j.get("replay") or {}
+    if "gram" not in rp:
+        print("replay file carries no concrete case (kind=%s)" % j.get("kind"))
+        print(j.get("broken") or j.get("what"))
+        return 1
+    gd = rp["gram"]
+    g = corpus.Gram(gd["gid"], [tuple(x) for x in gd["rules"]], gd["root"], tags=gd["tags"], surface=gd["surface"], pre=gd.get("pre", ""))
+    inp = bytes.fromhex(rp["input_hex"]).decode("latin1") if rp["input_hex"] != "-" else ""
+    g.alphabet = ""
+    g.extra_inputs = [inp] if inp else []
+    g.maxlen = 0
+    cfgs = [c for c in er.CFGS + er.EOL_CFGS if er.cfg_name(c) == rp["cfg"]]
+    if not cfgs:
+        print("unknown configuration", rp["cfg"])
+        return 2
+    common = er.prepare_common()
+    K = er.run_chunk(common, [g], {g.gid: cfgs[:1]}, 0, label="replay")
+    if K.error:
+        print("REPLAY: could not run:", K.error)
+        return 1
+    oracle = ep.ORACLES.get(pid)
+    bad = 0
+    cnt = collections.Counter()
+    for ri, rm in zip(K.impl, K.model):
+        if ri["input"] != rp["input_hex"]:
+            continue
+        print("impl :", ri["res"], ri["cur"], ri["events"][:400])
+        print("model:", rm["res"], rm["cur"], rm["events"][:400])
+        if ep.projection(ri, pid) != ep.projection(rm, pid, K=K, model=True):
+            print("REPLAY: model and implementation differ on the %s projection" % pid)
+            bad += 1
+        for msg in (oracle(K, ri, cnt) if oracle else []):
+            print("REPLAY: VIOLATION reproduced:", msg)
+            bad += 1
+    if not bad:
+        print("REPLAY: not reproduced on the current tree")
+    return 1 if bad else 0
